@@ -1,17 +1,24 @@
 (* C16 — Data queries return exactly the values the path designates.
    Statements only.
 
-   FULL STATEMENT (not proved; checked differentially on every run):
-     query_eq_reference : for every wired tree and every path of '/' and '.' steps,
-       process_one_subset attrs labels fuel nodes p = eval (render_nodes ...) p
-     (evaluation over the nested JSON rendering; one envelope per replication,
-      one list per repetition, matches in document order).
-   Proved below: the subset selector; what ONE STEP selects, for every node list
-   and every component (the nodes whose label is the component's id, cut by the
-   Python slice, in document order; the early return of the integer case changes
-   nothing; composites merged in on a descendant step); document order of every
-   selection; and that only value nodes yield values.  What is not proved is the
-   composition of the steps over the tree (envelopes per replication). *)
+   FULL STATEMENT, proved below for every path of child ('/') and attribute ('.') steps:
+     C16_query_eq_reference : for every tree produced by wiring, every such path, every
+       slice, every fuel >= 2*|path|+1,
+       process_one_subset attrs labels fuel nodes p
+         = eval_json labels (render_nodes attrs ia vals k nodes) (p_comps p)
+     i.e. the query equals the evaluation of the path over the nested JSON rendering
+     (QueryRef.eval_json: structurally recursive on the path, no fuel; one envelope per
+     replication, one list per repetition, matches in document order, values of value
+     nodes only), with the SAME ERROR CLASS when it fails (QueryError: no members / no
+     attributes / valueless node; ValueError: zero slice step; IndexError: empty path).
+     The proof goes through the reference over the wired tree (C16_query_eq_tree_reference,
+     C16_values_directly_eq_nodes_then_values, C16_json_reference_eq_tree_reference).
+   Scope of the hypothesis [simple_path]: no component uses the descendant separator '>'
+   (an executable predicate on the path).  For paths WITH a descendant step the statement
+   "query = search of all composite nodes" is not proved; what holds for them: what one
+   step selects (the C16_step theorems), and fuel monotonicity for every path (C16_fuel_monotone).
+   Also proved: the subset selector; document order of every selection; only value nodes
+   yield values. *)
 From PBK Require Import Base Descr Walk Wire PySlice PathParser Query QueryProofs QuerySpec.
 
 Theorem C16_subset_selector_none : forall n cs,
